@@ -58,6 +58,8 @@ def gen(rng, tier):
         for d, tag in magic.variants(rng, body):
             meta = {"via_file": core.input_route(rng)}
             cases.append(Case("cli.hex_encode " + hx(d), tags=("enc", tag), runner="cli", meta=meta))
+    for d in magic.ENCODED_TEXTS:
+        cases.append(Case("cli.hex_encode " + hx(d), tags=("enc", "encoded-text"), runner="cli", meta={"via_file": core.input_route(rng)}))
     for body in (b"0x010203", b"010203\n", b"0xABcd"):
         for d, tag in magic.variants(rng, body):
             meta = {"via_file": core.input_route(rng)}
